@@ -1,7 +1,502 @@
 import Pff.Model.Entry
 import Pff.Props.C10
-/-! Helper lemmas for C09 (entry metadata). -/
+/-! Helper lemmas for C09 (entry metadata).  Core Lean only. -/
 namespace Pff.Entry.A
 open Pff.Entry Pff.Ecc Pff.Layout
+
+/-! ## constants -/
+
+theorem delim_eq : delim = [250, 255, 250, 255, 250] := rfl
+theorem delim_length : delim.length = 5 := rfl
+theorem marker_length : marker.length = 10 := rfl
+
+/-! ## size text -/
+
+theorem isDigit_iff (c : Nat) : isDigit c = true ↔ 48 ≤ c ∧ c ≤ 57 := by
+  simp only [isDigit, Bool.and_eq_true, decide_eq_true_eq]
+
+theorem isSpace_of_isDigit (c : Nat) (h : isDigit c = true) : isSpace c = false := by
+  rw [isDigit_iff] at h
+  simp only [isSpace, Bool.or_eq_false_iff, Bool.and_eq_false_iff, decide_eq_false_iff_not]
+  omega
+
+theorem digitsRev_digits : ∀ fuel n, ∀ c ∈ digitsRev fuel n, isDigit c = true := by
+  intro fuel
+  induction fuel with
+  | zero => intro n c hc; simp only [digitsRev, List.not_mem_nil] at hc
+  | succ fuel ih =>
+    intro n c hc
+    simp only [digitsRev] at hc
+    split at hc
+    · simp only [List.mem_singleton] at hc
+      rw [isDigit_iff]; omega
+    · rw [List.mem_cons] at hc
+      rcases hc with rfl | hc
+      · rw [isDigit_iff]; omega
+      · exact ih _ c hc
+
+theorem digitsRev_ne_nil (fuel n : Nat) : digitsRev (fuel + 1) n ≠ [] := by
+  simp only [digitsRev]
+  split <;> exact List.cons_ne_nil _ _
+
+/-- value of a digit string, most significant digit first -/
+def dval (acc : Nat) (ds : List Nat) : Nat := ds.foldl (fun a c => a * 10 + (c - 48)) acc
+
+theorem digitsRev_val : ∀ fuel n, n < fuel →
+    (digitsRev fuel n).foldr (fun c a => a * 10 + (c - 48)) 0 = n := by
+  intro fuel
+  induction fuel with
+  | zero => intro n h; omega
+  | succ fuel ih =>
+    intro n h
+    simp only [digitsRev]
+    split
+    · simp only [List.foldr_cons, List.foldr_nil]; omega
+    · simp only [List.foldr_cons]
+      rw [ih (n / 10) (by omega)]
+      omega
+
+theorem digitsVal_digits : ∀ (ds : List Nat) (prev : Bool) (acc : Nat),
+    (∀ c ∈ ds, isDigit c = true) → (ds ≠ [] ∨ prev = true) →
+    digitsVal ds prev acc = some (dval acc ds) := by
+  intro ds
+  induction ds with
+  | nil =>
+    intro prev acc _ h
+    rcases h with h | h
+    · exact absurd rfl h
+    · simp only [digitsVal, h, if_true, dval, List.foldl_nil]
+  | cons c cs ih =>
+    intro prev acc hall _
+    have hc : isDigit c = true := hall c (List.mem_cons_self ..)
+    simp only [digitsVal, hc, if_true]
+    rw [ih true _ (fun x hx => hall x (List.mem_cons_of_mem _ hx)) (Or.inr rfl)]
+    simp only [dval, List.foldl_cons]
+
+theorem dropWhile_isSpace_digits (l : List Nat) (hall : ∀ c ∈ l, isDigit c = true) :
+    l.dropWhile isSpace = l := by
+  cases l with
+  | nil => rfl
+  | cons c cs =>
+    rw [List.dropWhile_cons, isSpace_of_isDigit c (hall c (List.mem_cons_self ..))]
+    simp only [Bool.false_eq_true, if_false]
+
+theorem pyInt_digits (l : List Nat) (hne : l ≠ []) (hall : ∀ c ∈ l, isDigit c = true) :
+    pyInt l = some ((dval 0 l : Nat) : Int) := by
+  have h1 : l.dropWhile isSpace = l := dropWhile_isSpace_digits l hall
+  have h2 : l.reverse.dropWhile isSpace = l.reverse :=
+    dropWhile_isSpace_digits _ (fun c hc => hall c (List.mem_reverse.mp hc))
+  have hv := digitsVal_digits l false 0 hall (Or.inl hne)
+  simp only [pyInt, h1, h2, List.reverse_reverse]
+  cases l with
+  | nil => exact absurd rfl hne
+  | cons c cs =>
+    have hc := (isDigit_iff c).mp (hall c (List.mem_cons_self ..))
+    have h45 : ¬ c = 45 := by omega
+    have h43 : ¬ c = 43 := by omega
+    simp only [h45, h43, if_false, hv]
+    rfl
+
+theorem digitsOf_ne_nil (n : Nat) : digitsOf n ≠ [] := by
+  simp only [digitsOf, ne_eq, List.reverse_eq_nil_iff]
+  exact digitsRev_ne_nil n n
+
+theorem digitsOf_digits (n : Nat) : ∀ c ∈ digitsOf n, isDigit c = true := by
+  intro c hc
+  simp only [digitsOf, List.mem_reverse] at hc
+  exact digitsRev_digits _ _ c hc
+
+theorem dval_digitsOf (n : Nat) : dval 0 (digitsOf n) = n := by
+  simp only [dval, digitsOf, List.foldl_reverse]
+  exact digitsRev_val (n + 1) n (by omega)
+
+/-! ## `find` and the field splitting -/
+
+theorem isPrefixOf_delim_iff (l : Bytes) : delim.isPrefixOf l = true ↔ l.take 5 = delim := by
+  rw [List.isPrefixOf_iff_prefix, List.prefix_iff_eq_take, delim_length]
+  exact eq_comm
+
+/-- whether a delimiter starts at `i < |f|` only depends on `f ++ delim` -/
+theorem delim_local (f rest : Bytes) (i : Nat) (hi : i < f.length) :
+    delim.isPrefixOf ((f ++ (delim ++ rest)).drop i) = delim.isPrefixOf ((f ++ delim).drop i) := by
+  rw [Bool.eq_iff_iff, isPrefixOf_delim_iff, isPrefixOf_delim_iff]
+  have h : f ++ (delim ++ rest) = (f ++ delim) ++ rest := by simp only [List.append_assoc]
+  rw [h, List.drop_append_of_le_length (by simp only [List.length_append]; omega),
+    List.take_append_of_le_length
+      (by simp only [List.length_drop, List.length_append, delim_length]; omega)]
+
+theorem find_eq_some (sub buf : Bytes) (b i : Nat) (hbi : b ≤ i) (hi : i ≤ buf.length)
+    (hp : sub.isPrefixOf (buf.drop i) = true)
+    (hn : ∀ j, b ≤ j → j < i → sub.isPrefixOf (buf.drop j) = false) :
+    Pff.Scan.find sub buf b = some i := by
+  unfold Pff.Scan.find
+  rw [List.find?_range'_eq_some]
+  refine ⟨hp, ?_, ?_⟩
+  · rw [List.mem_range'_1]; omega
+  · intro j h1 h2; rw [hn j h1 h2]; rfl
+
+/-- a field `f` without a delimiter start, followed by a delimiter: searching from the start of
+the field finds the delimiter right after it -/
+theorem find_field (pre f rest : Bytes)
+    (hf : ∀ i, i < f.length → ¬ delim.isPrefixOf ((f ++ delim).drop i) = true) :
+    Pff.Scan.find delim (pre ++ (f ++ (delim ++ rest))) pre.length = some (pre.length + f.length) := by
+  apply find_eq_some
+  · omega
+  · simp only [List.length_append]; omega
+  · have h : pre ++ (f ++ (delim ++ rest)) = (pre ++ f) ++ (delim ++ rest) := by
+      simp only [List.append_assoc]
+    rw [h, List.drop_left' (by simp only [List.length_append]), List.isPrefixOf_iff_prefix]
+    exact List.prefix_append _ _
+  · intro j h1 h2
+    obtain ⟨j', rfl⟩ := Nat.exists_eq_add_of_le h1
+    rw [← List.drop_drop, List.drop_left, delim_local f rest j' (by omega)]
+    have := hf j' (by omega)
+    simpa only [Bool.not_eq_true] using this
+
+theorem pyFind_field (e pre f rest : Bytes) (start : Int)
+    (he : e = pre ++ (f ++ (delim ++ rest))) (hs : start = (pre.length : Int))
+    (hf : ∀ i, i < f.length → ¬ delim.isPrefixOf ((f ++ delim).drop i) = true) :
+    pyFind delim e start = ((pre.length + f.length : Nat) : Int) := by
+  subst he hs
+  have h : ¬ ((pre.length : Int) < 0) := by omega
+  simp only [pyFind, h, if_false, Int.toNat_natCast, find_field pre f rest hf]
+
+theorem pySlice_field (e pre f rest : Bytes) (a b : Int)
+    (he : e = pre ++ (f ++ rest)) (ha : a = (pre.length : Int))
+    (hb : b = ((pre.length + f.length : Nat) : Int)) : pySlice e a b = f := by
+  subst he ha hb
+  have h1 : ¬ ((pre.length : Int) < 0) := by omega
+  have h2 : ¬ (((pre.length + f.length : Nat) : Int) < 0) := by omega
+  simp only [pySlice, pyBound, h1, h2, if_false, Int.toNat_natCast, List.length_append]
+  have h3 : min pre.length (pre.length + (f.length + rest.length)) = pre.length := by omega
+  have h4 : min (pre.length + f.length) (pre.length + (f.length + rest.length)) - pre.length
+      = f.length := by omega
+  rw [h3, h4, List.drop_left, List.take_left]
+
+theorem stripDelims_of_not_prefix (fuel : Nat) (e : Bytes) (h : delim.isPrefixOf e = false) :
+    stripDelims fuel e = e := by
+  cases fuel with
+  | zero => rfl
+  | succ fuel => simp only [stripDelims, h, Bool.false_and, Bool.false_eq_true, if_false]
+
+theorem entryFields_eq (e0 : Bytes) (a b c d' : Int) (hstrip : stripDelims e0.length e0 = e0)
+    (h1 : pyFind delim e0 0 = a) (h2 : pyFind delim e0 (a + (delim.length : Int)) = b)
+    (h3 : pyFind delim e0 (b + (delim.length : Int)) = c)
+    (h4 : pyFind delim e0 (c + (delim.length : Int)) = d') :
+    entryFields e0 =
+      { path := pySlice e0 0 a, sizeRaw := pySlice e0 (a + (delim.length : Int)) b,
+        pathEcc := pySlice e0 (b + (delim.length : Int)) c,
+        sizeEcc := pySlice e0 (c + (delim.length : Int)) d',
+        trackOff := d' + (delim.length : Int), stripped := 0 } := by
+  simp only [entryFields, hstrip, h1, h2, h3, h4, Nat.sub_self]
+
+theorem entryFields_gen (path sizeTxt pathEcc sizeEcc track : Bytes) (hp : path ≠ [])
+    (c1 : ∀ i, i < path.length → ¬ delim.isPrefixOf ((path ++ delim).drop i) = true)
+    (c2 : ∀ i, i < sizeTxt.length → ¬ delim.isPrefixOf ((sizeTxt ++ delim).drop i) = true)
+    (c3 : ∀ i, i < pathEcc.length → ¬ delim.isPrefixOf ((pathEcc ++ delim).drop i) = true)
+    (c4 : ∀ i, i < sizeEcc.length → ¬ delim.isPrefixOf ((sizeEcc ++ delim).drop i) = true) :
+    entryFields (path ++ delim ++ sizeTxt ++ delim ++ pathEcc ++ delim ++ sizeEcc ++ delim ++ track) =
+      { path := path, sizeRaw := sizeTxt, pathEcc := pathEcc, sizeEcc := sizeEcc,
+        trackOff := ((path.length + delim.length + sizeTxt.length + delim.length + pathEcc.length
+                      + delim.length + sizeEcc.length + delim.length : Nat) : Int),
+        stripped := 0 } := by
+  generalize he : path ++ delim ++ sizeTxt ++ delim ++ pathEcc ++ delim ++ sizeEcc ++ delim ++ track = e
+  -- the four decompositions
+  have e1 : e = [] ++ (path ++ (delim ++ (sizeTxt ++ delim ++ pathEcc ++ delim ++ sizeEcc ++ delim ++ track))) := by
+    rw [← he]; simp only [List.append_assoc, List.nil_append]
+  have e2 : e = (path ++ delim) ++ (sizeTxt ++ (delim ++ (pathEcc ++ delim ++ sizeEcc ++ delim ++ track))) := by
+    rw [← he]; simp only [List.append_assoc]
+  have e3 : e = (path ++ delim ++ sizeTxt ++ delim) ++ (pathEcc ++ (delim ++ (sizeEcc ++ delim ++ track))) := by
+    rw [← he]; simp only [List.append_assoc]
+  have e4 : e = (path ++ delim ++ sizeTxt ++ delim ++ pathEcc ++ delim) ++ (sizeEcc ++ (delim ++ track)) := by
+    rw [← he]; simp only [List.append_assoc]
+  have hd := delim_length
+  have f1 := pyFind_field e _ _ _ 0 e1 (by simp only [List.length_nil]; rfl) c1
+  have f2 := pyFind_field e _ _ _ (((([] : Bytes).length + path.length : Nat) : Int) + (delim.length : Int)) e2
+    (by simp only [List.length_append, List.length_nil]; omega) c2
+  have f3 := pyFind_field e _ _ _ ((((path ++ delim).length + sizeTxt.length : Nat) : Int) + (delim.length : Int)) e3
+    (by simp only [List.length_append]; omega) c3
+  have f4 := pyFind_field e _ _ _
+    ((((path ++ delim ++ sizeTxt ++ delim).length + pathEcc.length : Nat) : Int) + (delim.length : Int)) e4
+    (by simp only [List.length_append]; omega) c4
+  have hstrip : stripDelims e.length e = e := by
+    apply stripDelims_of_not_prefix
+    have hpl : 0 < path.length := List.length_pos_iff.mpr hp
+    have := c1 0 hpl
+    have hl := delim_local path (sizeTxt ++ delim ++ pathEcc ++ delim ++ sizeEcc ++ delim ++ track) 0 hpl
+    rw [List.drop_zero, List.drop_zero] at hl
+    rw [List.drop_zero] at this
+    rw [e1, List.nil_append, hl]
+    simpa only [Bool.not_eq_true] using this
+  rw [entryFields_eq e _ _ _ _ hstrip f1 f2 f3 f4]
+  rw [pySlice_field e [] path _ 0 _ e1 rfl rfl]
+  rw [pySlice_field e (path ++ delim) sizeTxt _ _ _ e2
+    (by simp only [List.length_append, List.length_nil]; omega) rfl]
+  rw [pySlice_field e (path ++ delim ++ sizeTxt ++ delim) pathEcc _ _ _ e3
+    (by simp only [List.length_append]; omega) rfl]
+  rw [pySlice_field e (path ++ delim ++ sizeTxt ++ delim ++ pathEcc ++ delim) sizeEcc _ _ _ e4
+    (by simp only [List.length_append]; omega) rfl]
+  have ht : (((path ++ delim ++ sizeTxt ++ delim ++ pathEcc ++ delim).length + sizeEcc.length : Nat) : Int)
+      + (delim.length : Int) =
+      ((path.length + delim.length + sizeTxt.length + delim.length + pathEcc.length
+                      + delim.length + sizeEcc.length + delim.length : Nat) : Int) := by
+    simp only [List.length_append]; omega
+  rw [ht]
+
+/-! ## intra-ecc: undamaged round trip -/
+
+theorem tiles_le : ∀ (L : List Block) (s e : Nat), Tiles L s e → s ≤ e := by
+  intro L
+  induction L with
+  | nil => intro s e h; simp only [Tiles] at h; omega
+  | cons b bs ih =>
+    intro s e h
+    simp only [Tiles] at h
+    have := ih _ _ h.2.2
+    omega
+
+/-- the slices of a tiling of `[s, e)` concatenate to that part of the content -/
+theorem tiles_flatten (content : Bytes) : ∀ (L : List Block) (s e : Nat), Tiles L s e →
+    (L.map (slice content)).flatten = (content.drop s).take (e - s) := by
+  intro L
+  induction L with
+  | nil =>
+    intro s e h
+    simp only [Tiles] at h
+    subst h
+    simp only [List.map_nil, List.flatten_nil, Nat.sub_self, List.take_zero]
+  | cons b bs ih =>
+    intro s e h
+    simp only [Tiles] at h
+    obtain ⟨hoff, _, ht⟩ := h
+    have hle := tiles_le _ _ _ ht
+    have he : e - s = b.len + (e - (s + b.len)) := by omega
+    simp only [List.map_cons, List.flatten_cons]
+    rw [ih _ _ ht, he, List.take_add, List.drop_drop]
+    simp only [slice, hoff]
+
+theorem layoutGen_eq_header (k n : Nat) : ∀ fuel c,
+    layoutGen (fun _ => k) n fuel c = layoutHeader k n n fuel c := by
+  intro fuel
+  induction fuel with
+  | zero => intro c; rfl
+  | succ fuel ih =>
+    intro c
+    by_cases h : c < n
+    · rw [layoutGen_cons _ n fuel c h, layoutHeader_cons k n n fuel c (by omega), Nat.min_self]
+      by_cases h2 : c + k ≤ n
+      · have hm : min k (n - c) = k := by omega
+        rw [hm, ih]
+      · rw [layoutGen_nil_of_ge _ n fuel _ (by omega),
+          layoutHeader_nil_of_ge k n n fuel _ (by omega)]
+    · rw [layoutGen_nil_of_ge _ n _ c (by omega), layoutHeader_nil_of_ge k n n _ c (by omega)]
+
+/-- the blocks both tools assemble from an undamaged field and its intra-ecc -/
+def cleanBlocks (enc : Nat → Bytes → Bytes) (k : Nat) (field : Bytes) : List AsmBlock :=
+  (layoutHeader k field.length field.length (field.length + 1) 0).map
+    (fun b => { off := b.off, msg := slice field b, k := k, hash := [], ecc := enc k (slice field b) })
+
+theorem intraEcc_eq_header (enc : Nat → Bytes → Bytes) (k : Nat) (field : Bytes) :
+    intraEcc enc k field = genTrackHeader (fun _ => []) enc k field.length field := by
+  unfold intraEcc genTrackHeader
+  congr 1
+  apply List.map_congr_left
+  intro b hb
+  have h := layoutHeader_mem k field.length field.length _ _ b hb
+  rw [h.1, List.nil_append]
+
+theorem assembleHeader_clean (enc : Nat → Bytes → Bytes) (k mbs : Nat) (hk : 1 ≤ k)
+    (hpar : 1 ≤ mbs - k)
+    (henc : ∀ m : Bytes, 1 ≤ m.length → m.length ≤ k → (enc k m).length = mbs - k) (field : Bytes) :
+    assembleHeader k 0 mbs field.length field (intraEcc enc k field) (field.length + 1) 0 0 =
+      cleanBlocks enc k field := by
+  rw [intraEcc_eq_header,
+    C10_agree_header k 0 mbs field.length hk (fun _ => []) enc (fun _ => rfl) henc (by omega) field]
+  unfold cleanBlocks
+  apply List.map_congr_left
+  intro b hb
+  have h := layoutHeader_mem k field.length field.length _ _ b hb
+  rw [h.1]
+
+theorem assemble_clean (enc : Nat → Bytes → Bytes) (k mbs : Nat) (hk : 1 ≤ k)
+    (hpar : 1 ≤ mbs - k)
+    (henc : ∀ m : Bytes, 1 ≤ m.length → m.length ≤ k → (enc k m).length = mbs - k) (field : Bytes) :
+    assemble (fun _ => k) 0 mbs field (intraEcc enc k field) (field.length + 1) 0 0 =
+      cleanBlocks enc k field := by
+  -- an encoder with the right parity length at every `k'`, equal to `enc` at `k`
+  let enc' : Nat → Bytes → Bytes :=
+    fun k' m => if k' = k then enc k m else List.replicate (mbs - k') 0
+  have henc' : ∀ k' (m : Bytes), 1 ≤ m.length → m.length ≤ k' → (enc' k' m).length = mbs - k' := by
+    intro k' m h1 h2
+    show (if k' = k then enc k m else List.replicate (mbs - k') 0).length = mbs - k'
+    split
+    · next h => subst h; exact henc m h1 h2
+    · exact List.length_replicate
+  have htrack : intraEcc enc k field = genTrack (fun _ => []) enc' (fun _ => k) field := by
+    unfold intraEcc genTrack
+    rw [layoutGen_eq_header]
+    congr 1
+    apply List.map_congr_left
+    intro b hb
+    have h := layoutHeader_mem k field.length field.length _ _ b hb
+    show enc k (slice field b) = [] ++ (if b.k = k then enc k (slice field b) else _)
+    rw [if_pos h.1, List.nil_append]
+  rw [htrack, C10_agree_whole (fun _ => k) (fun _ => hk) 0 mbs (fun _ => []) enc' (fun _ => rfl)
+    henc' (fun _ => by omega) field, layoutGen_eq_header]
+  unfold cleanBlocks
+  apply List.map_congr_left
+  intro b hb
+  have h := layoutHeader_mem k field.length field.length _ _ b hb
+  show AsmBlock.mk b.off (slice field b) b.k [] (if b.k = k then enc k (slice field b) else _) = _
+  rw [if_pos h.1, h.1]
+
+theorem fold_accept (O : Ops) (k : Nat) : ∀ (bs : List AsmBlock) (acc : IntraResult),
+    (∀ b ∈ bs, O.chk k b.msg b.ecc = true) →
+    bs.foldl (fun acc b => intraBlock O k acc b.msg b.ecc) acc =
+      { acc with field := acc.field ++ (bs.map (·.msg)).flatten } := by
+  intro bs
+  induction bs with
+  | nil => intro acc _; simp only [List.foldl_nil, List.map_nil, List.flatten_nil, List.append_nil]
+  | cons b bs ih =>
+    intro acc h
+    have hb := h b (List.mem_cons_self ..)
+    rw [List.foldl_cons, ih _ (fun x hx => h x (List.mem_cons_of_mem _ hx))]
+    simp only [intraBlock, hb, if_true, List.map_cons, List.flatten_cons, List.append_assoc]
+
+theorem cleanBlocks_accept (O : Ops) (k : Nat) (hk : 1 ≤ k)
+    (hacc : ∀ m : Bytes, 1 ≤ m.length → m.length ≤ k → O.chk k m (O.enc k m) = true) (field : Bytes) :
+    ∀ b ∈ cleanBlocks O.enc k field, O.chk k b.msg b.ecc = true := by
+  intro b hb
+  simp only [cleanBlocks, List.mem_map] at hb
+  obtain ⟨b0, hb0, rfl⟩ := hb
+  have h := layoutHeader_mem k field.length field.length _ _ b0 hb0
+  have hl := slice_length field b0
+  rw [Nat.min_self] at h
+  show O.chk k (slice field b0) (O.enc k (slice field b0)) = true
+  exact hacc _ (by omega) (by omega)
+
+theorem cleanBlocks_msgs (enc : Nat → Bytes → Bytes) (k : Nat) (hk : 1 ≤ k) (field : Bytes) :
+    ((cleanBlocks enc k field).map (·.msg)).flatten = field := by
+  have ht := (C10_header_tiles k field.length field.length hk).1
+  simp only [cleanBlocks, List.map_map]
+  have := tiles_flatten field _ _ _ ht
+  rw [Nat.min_self, Nat.sub_zero, List.drop_zero, List.take_length] at this
+  exact this
+
+theorem fold_clean (O : Ops) (k : Nat) (hk : 1 ≤ k)
+    (hacc : ∀ m : Bytes, 1 ≤ m.length → m.length ≤ k → O.chk k m (O.enc k m) = true) (field : Bytes) :
+    (cleanBlocks O.enc k field).foldl (fun acc b => intraBlock O k acc b.msg b.ecc)
+      { field := [], corrupted := false, corrected := true } =
+      { field := field, corrupted := false, corrected := true } := by
+  rw [fold_accept O k _ _ (cleanBlocks_accept O k hk hacc field), cleanBlocks_msgs O.enc k hk field,
+    List.nil_append]
+
+/-! ## intra-ecc: repair -/
+
+/-- the original bytes at the place of an assembled block -/
+def piece (orig : Bytes) (b : AsmBlock) : Bytes := (orig.drop b.off).take b.msg.length
+
+theorem intraBlock_ok (O : Ops) (k : Nat) (orig : Bytes) (acc : IntraResult) (b : AsmBlock)
+    (h : (b.msg = piece orig b ∧ O.chk k b.msg b.ecc = true) ∨
+      (O.chk k b.msg b.ecc = false ∧
+        ∃ p, O.dec k b.msg b.ecc = some (piece orig b, p) ∧ O.chk k (piece orig b) p = true)) :
+    (intraBlock O k acc b.msg b.ecc).field = acc.field ++ piece orig b ∧
+    (intraBlock O k acc b.msg b.ecc).corrected = acc.corrected := by
+  rcases h with ⟨hm, hc⟩ | ⟨hc, p, hd, hc2⟩
+  · simp only [intraBlock, hc, if_true, ← hm, and_self]
+  · simp only [intraBlock, hc, Bool.false_eq_true, if_false, hd, hc2, if_true, and_self]
+
+theorem fold_repair (O : Ops) (k : Nat) (orig : Bytes) : ∀ (bs : List AsmBlock) (acc : IntraResult),
+    (∀ b ∈ bs, (b.msg = piece orig b ∧ O.chk k b.msg b.ecc = true) ∨
+      (O.chk k b.msg b.ecc = false ∧
+        ∃ p, O.dec k b.msg b.ecc = some (piece orig b, p) ∧ O.chk k (piece orig b) p = true)) →
+    (bs.foldl (fun acc b => intraBlock O k acc b.msg b.ecc) acc).field =
+      acc.field ++ (bs.map (piece orig)).flatten ∧
+    (bs.foldl (fun acc b => intraBlock O k acc b.msg b.ecc) acc).corrected = acc.corrected := by
+  intro bs
+  induction bs with
+  | nil =>
+    intro acc _
+    simp only [List.foldl_nil, List.map_nil, List.flatten_nil, List.append_nil, and_self]
+  | cons b bs ih =>
+    intro acc h
+    have hb := intraBlock_ok O k orig acc b (h b (List.mem_cons_self ..))
+    have := ih (intraBlock O k acc b.msg b.ecc) (fun x hx => h x (List.mem_cons_of_mem _ hx))
+    rw [List.foldl_cons, this.1, this.2, hb.1, hb.2]
+    simp only [List.map_cons, List.flatten_cons, List.append_assoc, and_self]
+
+theorem assemble_pieces (kOf : Nat → Nat) (hashLen mbs : Nat) (content track orig : Bytes) :
+    ∀ fuel c e,
+      ((assemble kOf hashLen mbs content track fuel c e).map (piece orig)).flatten =
+        (orig.drop c).take
+          (((assemble kOf hashLen mbs content track fuel c e).map (·.msg)).flatten).length := by
+  intro fuel
+  induction fuel with
+  | zero =>
+    intro c e
+    simp only [assemble, List.map_nil, List.flatten_nil, List.length_nil, List.take_zero]
+  | succ fuel ih =>
+    intro c e
+    simp only [assemble]
+    split
+    · split
+      · simp only [List.map_nil, List.flatten_nil, List.length_nil, List.take_zero]
+      · simp only [List.map_cons, List.flatten_cons, List.length_append]
+        rw [ih, List.take_add (l := orig.drop c), List.drop_drop]
+        simp only [piece]
+    · simp only [List.map_nil, List.flatten_nil, List.length_nil, List.take_zero]
+
+theorem assembleHeader_nil_of_ge (k hashLen mbs readLen : Nat) (content track : Bytes)
+    (fuel i j : Nat) (h : (content.take readLen).length ≤ i) :
+    assembleHeader k hashLen mbs readLen content track fuel i j = [] := by
+  cases fuel with
+  | zero => rfl
+  | succ fuel =>
+    simp only [assembleHeader]
+    rw [if_neg (by omega)]
+
+theorem assembleHeader_pieces (k hashLen mbs readLen : Nat) (content track orig : Bytes) :
+    ∀ fuel i j,
+      ((assembleHeader k hashLen mbs readLen content track fuel i j).map (piece orig)).flatten =
+        (orig.drop i).take
+          (((assembleHeader k hashLen mbs readLen content track fuel i j).map (·.msg)).flatten).length := by
+  intro fuel
+  induction fuel with
+  | zero =>
+    intro i j
+    simp only [assembleHeader, List.map_nil, List.flatten_nil, List.length_nil, List.take_zero]
+  | succ fuel ih =>
+    intro i j
+    by_cases h2 : i + k ≤ (content.take readLen).length
+    · simp only [assembleHeader]
+      split
+      · simp only [List.map_cons, List.flatten_cons, List.length_append]
+        rw [ih, List.take_add, List.drop_drop]
+        have hm : (((content.take readLen).drop i).take k).length = k := by
+          rw [List.length_take, List.length_drop]; omega
+        simp only [piece, hm]
+      · simp only [List.map_nil, List.flatten_nil, List.length_nil, List.take_zero]
+    · simp only [assembleHeader]
+      split
+      · rw [assembleHeader_nil_of_ge k hashLen mbs readLen content track fuel (i + k) _ (by omega)]
+        simp only [List.map_cons, List.map_nil, List.flatten_cons, List.flatten_nil,
+          List.append_nil, piece]
+      · simp only [List.map_nil, List.flatten_nil, List.length_nil, List.take_zero]
+
+/-- common conclusion of the two repair theorems -/
+theorem repair_of_blocks (O : Ops) (k : Nat) (orig field' : Bytes) (bs : List AsmBlock)
+    (hlen : field'.length = orig.length)
+    (hcover : (bs.map (·.msg)).flatten = field')
+    (hpieces : (bs.map (piece orig)).flatten = (orig.drop 0).take ((bs.map (·.msg)).flatten).length)
+    (hok : ∀ b ∈ bs, (b.msg = piece orig b ∧ O.chk k b.msg b.ecc = true) ∨
+      (O.chk k b.msg b.ecc = false ∧
+        ∃ p, O.dec k b.msg b.ecc = some (piece orig b, p) ∧ O.chk k (piece orig b) p = true)) :
+    (bs.foldl (fun acc b => intraBlock O k acc b.msg b.ecc)
+      { field := [], corrupted := false, corrected := true }).field = orig ∧
+    (bs.foldl (fun acc b => intraBlock O k acc b.msg b.ecc)
+      { field := [], corrupted := false, corrected := true }).corrected = true := by
+  have h := fold_repair O k orig bs { field := [], corrupted := false, corrected := true } hok
+  rw [h.1, h.2, hpieces, hcover, hlen, List.drop_zero, List.take_length, List.nil_append]
+  exact ⟨rfl, rfl⟩
 
 end Pff.Entry.A
